@@ -772,3 +772,137 @@ func ruleT35(c *Ctx) *RuleResult {
 	r.Instances = n
 	return r
 }
+
+// ---------------------------------------------------------------------------
+
+func init() {
+	registerRule("P3j", "a discarded open segment takes its part paths with it: where writer code closes the segment of the open-segment slot (outside the stream's own close), either no implementation with published parts can reach that point (the guarding error comes from a finalize that always returns nil for it) or the function unregisters the paths of the segment's parts", ruleP3j)
+}
+
+func ruleP3j(c *Ctx) *RuleResult {
+	r := &RuleResult{Floor: 1, FloorWhat: "closes of the open segment outside muxerStream.close"}
+	slot := c.Field("", "muxerStream", "nextSegment")
+	segI := c.NamedType("", "muxerSegment")
+	streamClose := c.Method("", "muxerStream", "close")
+	unreg := c.pathTableFn("unregister")
+	if slot == nil || segI == nil {
+		r.undecided("muxerStream.nextSegment / muxerSegment not found")
+		return r
+	}
+	iface, _ := segI.Underlying().(*types.Interface)
+	if iface == nil {
+		r.undecided("muxerSegment is not an interface")
+		return r
+	}
+	impls := c.implementers("", iface)
+	hasParts := func(t *types.Named) bool {
+		st, _ := t.Underlying().(*types.Struct)
+		if st == nil {
+			return false
+		}
+		for i := 0; i < st.NumFields(); i++ {
+			if st.Field(i).Name() == "parts" {
+				return true
+			}
+		}
+		return false
+	}
+	finalizeCanFail := func(t *types.Named) bool {
+		fn := c.Method("", t.Obj().Name(), "finalize")
+		if fn == nil || fn.Blocks == nil {
+			return true
+		}
+		for _, b := range fn.Blocks {
+			if ret, ok := b.Instrs[len(b.Instrs)-1].(*ssa.Return); ok && len(ret.Results) > 0 {
+				if k, isK := retVal(ret, len(ret.Results)-1).(*ssa.Const); !isK || !k.IsNil() {
+					return true
+				}
+			}
+		}
+		return false
+	}
+	fromSlot := func(v ssa.Value) bool {
+		v = stripAsserts(canon(v))
+		f, _ := loadedField(v)
+		return f == slot
+	}
+	n := 0
+	for _, fn := range c.Funcs {
+		if !InRootPkg(fn) || fn.Blocks == nil || fn == streamClose || isClientFunc(enclosingNamed(fn)) {
+			continue
+		}
+		cnt := 0
+		allInstrs(fn, func(in ssa.Instruction) {
+			call, ok := in.(*ssa.Call)
+			if !ok {
+				return
+			}
+			var recv ssa.Value
+			switch {
+			case call.Call.IsInvoke() && call.Call.Method.Name() == "close":
+				recv = call.Call.Value
+			case call.Call.StaticCallee() != nil && call.Call.StaticCallee().Name() == "close" && call.Call.StaticCallee().Signature.Recv() != nil && len(call.Call.Args) > 0:
+				recv = call.Call.Args[0]
+			default:
+				return
+			}
+			if !fromSlot(recv) {
+				return
+			}
+			n++
+			cnt++
+			key := fmt.Sprintf("%s|close-open-segment#%d", FuncName(fn), cnt)
+			what := "no URI outlives the object it serves: part paths published for an open segment are unregistered when that segment is thrown away"
+			// which implementations can be here?
+			feasible := impls
+			for _, fa := range factsAt(call.Block()) {
+				bo, isBo := fa.cond.(*ssa.BinOp)
+				if !isBo || !((bo.Op == token.NEQ && fa.pol) || (bo.Op == token.EQL && !fa.pol)) {
+					continue
+				}
+				if k, isK := bo.Y.(*ssa.Const); !isK || !k.IsNil() {
+					continue
+				}
+				fc, isCall := bo.X.(*ssa.Call)
+				if !isCall || !fc.Call.IsInvoke() || fc.Call.Method.Name() != "finalize" || canon(fc.Call.Value) != canon(recv) {
+					continue
+				}
+				feasible = nil
+				for _, t := range impls {
+					if finalizeCanFail(t) {
+						feasible = append(feasible, t)
+					}
+				}
+			}
+			var withParts []string
+			for _, t := range feasible {
+				if hasParts(t) {
+					withParts = append(withParts, t.Obj().Name())
+				}
+			}
+			if len(withParts) == 0 {
+				r.ok(key, c.Pos(call.Pos()), FuncName(fn), what, "reached only by implementations that publish no parts")
+				return
+			}
+			unregisters := false
+			allInstrs(fn, func(x ssa.Instruction) {
+				if uc, ok := x.(*ssa.Call); ok && unreg != nil && uc.Call.StaticCallee() == unreg {
+					for _, a := range uc.Call.Args {
+						if f, b := loadedField(stripConv(a)); f != nil && f.Name() == "path" {
+							if nt := namedOf(b.Type()); nt != nil && nt.Obj().Name() == "muxerPart" {
+								unregisters = true
+							}
+						}
+					}
+				}
+			})
+			if unregisters {
+				r.ok(key, c.Pos(call.Pos()), FuncName(fn), what, "the function unregisters part paths")
+			} else {
+				r.fail(key, c.Pos(call.Pos()), FuncName(fn), what, "the open segment (possibly a "+strings.Join(withParts, " / ")+" with published parts) is closed here and no part path is unregistered: its part URIs keep resolving for ever, the path table grows with every discarded segment")
+			}
+		})
+	}
+	r.Instances = n
+	return r
+}
